@@ -39,8 +39,7 @@ class View:
         """scalar field, key = 'declaring_class.field[.leaf...]'"""
         e = self.e
         srt = e.key_sort(key)
-        a = self.st.heap.get(key)
-        if a is None: a = e.base_array(key, z3.ArraySort(I, srt))
+        a = e.harr(self.st, key, z3.ArraySort(I, srt))
         return z3.Select(a, self._ref(obj))
 
     def v3(self, obj, key):
@@ -59,21 +58,18 @@ class View:
         """scalar element of a vector: kind in 'real','int','bool'"""
         key = 'vec.data.' + kind
         srt = {'real': R, 'int': I, 'bool': B}[kind]
-        a = self.st.heap.get(key)
-        if a is None: a = self.e.base_array(key, z3.ArraySort(I, z3.ArraySort(I, srt)))
+        a = self.e.harr(self.st, key, z3.ArraySort(I, z3.ArraySort(I, srt)))
         return z3.Select(z3.Select(a, self._ref(vref)), i)
 
     def arr(self, key):
-        a = self.st.heap.get(key)
-        if a is None: a = self.e.base_array(key, z3.ArraySort(I, self.e.key_sort(key)))
-        return a
+        return self.e.harr(self.st, key, z3.ArraySort(I, self.e.key_sort(key)))
 
     def ghost(self, name):
         return self.st.ghost.get(name)
 
 
 def key_sort(self, key):
-    if key in ('vec.len', 'vec.epoch'): return I
+    if key in ('vec.len', 'vec.epoch', 'set.size'): return I
     if key in self.base_arrays: return self.base_arrays[key].sort().range()
     parts = key.split('.')
     # class names may contain dots? no. find the longest class prefix
@@ -112,10 +108,10 @@ class Ctx:
 
 class Contract:
     def __init__(self, qname, prop, pre=None, post=None, assigns=None, safety=(), use=(), signature=None, name=None,
-                 canary=True, unroll=None, setup=None, max_depth=None, name_locals=0, safety_via=None, relational=()):
+                 canary=True, unroll=None, setup=None, max_depth=None, name_locals=0, safety_via=None, relational=(), frame=None, on_call=None, ret_model=None, assumed=False):
         self.qname = qname; self.prop = prop; self.pre = pre; self.post = post; self.assigns = assigns
         self.safety = set(safety); self.use = list(use); self.signature = signature
-        self.name = name or qname; self.name_locals = name_locals; self.safety_via = safety_via; self.relational = list(relational); self.canary = canary; self.unroll = unroll; self.setup = setup; self.max_depth = max_depth
+        self.name = name or qname; self.name_locals = name_locals; self.safety_via = safety_via; self.relational = list(relational); self.frame = frame; self.on_call = on_call; self.ret_model = ret_model; self.assumed = assumed; self.canary = canary; self.unroll = unroll; self.setup = setup; self.max_depth = max_depth
 
     def applies(self, d, eng):
         return self.signature is None or self.signature in d['type']['qualType']
@@ -126,9 +122,48 @@ class Contract:
             raise Unsupported('contract %s: %d matching definitions in the current tree' % (self.name, len(ds)))
         return ds[0]
 
-    # -- used at a call site instead of the body
+    # -- used at a call site instead of the body (modular verification: the caller sees only this contract)
     def apply_at_call(self, eng, d, this, arg_nodes, st, fr, n):
-        raise Unsupported('callee contracts: not implemented for %s' % self.qname)
+        params = eng.ast.params_of(d)
+        env2 = {}
+        eng.bind_args(params, arg_nodes, st, fr, env2)
+        args = {(p.get('name') or 'arg%d' % i): env2[p['id']] for i, p in enumerate(params) if p['id'] in env2}
+        # by-reference value parameters are l-values into the caller's env: make them readable through Ctx.val
+        pre_state = st.clone()
+        C = Ctx(eng, d, args, this, pre_state)
+        callee = self.name
+        for item in (self.pre(C) if self.pre else []):
+            eng.obligations.append(Obligation('call-requires:%s:%s' % (callee, item[0]), st.pc, item[1], 'call', eng.where(n, fr), info={'fn': fr.qname}))
+        if self.on_call: self.on_call(C, st)
+        # frame
+        fr_spec = self.frame(C) if self.frame else ([(k, None) for k in (self.assigns or [])])
+        for (key, refs) in fr_spec:
+            if key == '*':
+                eng.havoc_all(st); continue
+            srt = eng.key_sort(key) if not key.startswith('vec.data.') else None
+            if key.startswith('vec.data.'):
+                arr = eng.harr(st, key, None)
+            else:
+                arr = eng.harr(st, key, z3.ArraySort(I, srt))
+            if refs is None:
+                st.heap[key] = eng.fresh(key + '!c', arr.sort())
+            else:
+                for r in refs:
+                    arr = z3.Store(arr, r, eng.fresh(key + '!c', arr.sort().range()))
+                st.heap[key] = arr
+        # result
+        rt = TY.parse(d['type']['qualType'].split('(')[0].strip()) if d.get('kind') != 'CXXConstructorDecl' else TY.parse('void')
+        ret = None
+        if self.ret_model is not None:
+            ret = self.ret_model(C, st)
+        elif rt.kind != 'void':
+            if rt.ref or not eng.is_value_type(rt): raise Unsupported('callee contract for %s needs a ret_model (returns %r)' % (self.qname, rt))
+            ret = eng.fresh_value(rt.noref(), 'ret.' + d.get('name', 'f'))
+        C2 = Ctx(eng, d, args, this, pre_state, st, ret, 'ret')
+        for item in (self.post(C2) if self.post else []):
+            st.pc.append(item[1])
+        eng.contracts_used.add(self.name)
+        return ret
 
 
 class LoopContract:
@@ -215,7 +250,7 @@ class LoopContract:
                 results.append((s2, o))
         normal = [s for (s, o) in exits]
         if len(normal) > 1:
-            m, _ = merge_states(normal, base=lambda k: eng.base_arrays[k]); normal = [m]
+            m, _ = merge_states(normal, base=eng.base_for); normal = [m]
         return [(s, None) for s in normal] + results
 
     def havoc_value(self, eng, v, name):
